@@ -1,6 +1,6 @@
 // heap_drv.cpp - op scripts on real libadm objects (mode "heap"). One case = lines up to "end".
 // Every op prints one result line; "snapshot" prints the canonical state. See DESIGN.md appendix A.
-#include "drv.hpp"
+#include "probes_common.hpp"
 #include <adm/adm.hpp>
 #include <adm/utilities/id_assignment.hpp>
 #include <adm/utilities/copy.hpp>
@@ -343,6 +343,7 @@ std::string run_op(World& w, const std::vector<std::string>& t, std::ostream& ou
 }  // namespace
 
 #include "heap_ops2.hpp"
+#include "xml_ops.hpp"
 
 namespace {
 std::string run_op(World& w, const std::vector<std::string>& t, std::ostream& out) {
@@ -378,6 +379,7 @@ std::string run_op(World& w, const std::vector<std::string>& t, std::ostream& ou
   if (c == "tformat") return "ok " + to_hex(formatTimecode(parse_tm(t.at(1))));
   std::string r;
   if (run_op2(w, t, out, r)) return r;
+  if (run_xml_op(w, t, r)) return r;
   return "bad-command";
 }
 }  // namespace
